@@ -356,3 +356,11 @@ package evaluator
 //@ iface (v value) Set(o value) ()
 //@   trusted
 //@   modifies class evaluator.numVal.V, class evaluator.stringVal.V, class evaluator.stringVal.runeSlice, class evaluator.boolVal.V, class evaluator.anyVal.V, class evaluator.anyVal.T, class evaluator.arrayVal.Elements, class evaluator.mapVal.Pairs, class evaluator.mapVal.Order
+
+// Overwriting a string cell keeps its rune cache coherent with the new contents (the object invariant of
+// stringVal is re-established).
+//@ func (s *stringVal) Set(v value)
+//@   props C11 C09
+//@   requires is(v, *stringVal) && ref(v) != 0
+//@   ensures[C09 C11 contents-copied] s.V == old(v.(*stringVal).V)
+//@   modifies s.V, s.runeSlice
